@@ -34,8 +34,9 @@ class Evidence:
         d = {"property_id": self.pid, "tier": self.tier, "seed": seed(), "level": self.level,
              "coverage": self.cov, "assumptions": self.assumptions,
              "wall_s": round(time.time() - self.t0, 2), "violations": self.violations}
-        os.makedirs(os.path.join(VERIF, "evidence"), exist_ok=True)
-        p = os.path.join(VERIF, "evidence", self.pid + ".json")
+        edir = os.environ.get("VERIF_EVIDENCE_DIR", os.path.join(VERIF, "evidence"))
+        os.makedirs(edir, exist_ok=True)
+        p = os.path.join(edir, self.pid + ".json")
         with open(p + ".tmp", "w") as f:
             json.dump(d, f, indent=1, sort_keys=True, default=str)
         os.replace(p + ".tmp", p)
@@ -70,7 +71,7 @@ class Verdict:
             self.hit_known.setdefault(key, what)
             return False
         # save replay artefact
-        d = os.path.join(VERIF, "replays", self.pid)
+        d = os.path.join(os.environ["VERIF_EVIDENCE_DIR"], "replays", self.pid) if "VERIF_EVIDENCE_DIR" in os.environ else os.path.join(VERIF, "replays", self.pid)
         os.makedirs(d, exist_ok=True)
         path = os.path.join(d, "viol_%d_%d.json" % (os.getpid(), len(self.viol)))
         with open(path, "w") as f:
